@@ -64,6 +64,10 @@ def extended_jobs():
         ('mixfix', (('ref', 'Paren'),)),
         ('left', (('str', '+'),)),
         ('postfix', (('str', '-'),)),
+        # operators written as <regex> where <predicate>: an earlier operator of the row matches its regex but is
+        # rejected by its predicate, a later one accepts the same text
+        ('left', (('where', ('re', '[+-]'), ('py', "lambda v: v == '-'")), ('where', ('re', '[+-]'), ('py', "lambda v: v == '+'")))),
+        ('prefix', (('where', ('re', '[+-]+'), ('py', "lambda v: v == '--'")), ('where', ('re', '[+-]'), ('py', "lambda v: v == '-'")))),
     ]
     extra = [('Args', ('class', None, [(None, True, ('str', '(')), ('args', False, ('sep', ('ref', 'E'), ('str', '+'), True, False, True, False)), (None, True, ('str', ')'))])),
              ('Paren', ('class', None, [(None, True, ('str', '(')), ('inner', False, ('ref', 'E')), (None, True, ('str', ')'))]))]
